@@ -114,7 +114,7 @@ def node_edits(base, rng, cap=None, for_model=False):
         p = L.show_path(path)
         twin = texts[str(x)] >= 2
         if isinstance(x, (D.TexCmd, D.TexNamedEnv)):
-            pool = NAMES if full else rng.sample(NAMES, 2)
+            pool = rng.sample(NAMES, 4 if full else 2)
             for nm in pool:
                 out.append(('ren %s %s' % (p, enc(nm)), twin or names.get(nm, 0) > (str(x.name) == nm)))
             n = len(x.args)
@@ -177,7 +177,7 @@ def correspondence(ctx):
     common.impl()
     rng = ctx.rng('corr')
     cap = ctx.pick(10, None)
-    units = c05._units(_fixed(), rng, cap, per=2) + c05._units(ctx.pick(500, 2500), rng, cap)
+    units = c05._units(_fixed(), rng, cap, per=2) + c05._units(ctx.pick(500, 1500), rng, cap)
     c05._collect(r, _util.pmap(_corr_unit, units))
     op = 'ren b0 ' + enc('q')
     r.sample({'request': L.edit_req(FIXED[0], [op]), 'impl': L.impl_edit(FIXED[0], [op])})
@@ -188,7 +188,7 @@ def correspondence(ctx):
               'the model too); non-trivial = the target has a textual twin, another node already carries the new name, or '
               'the node has at least two arguments'
               % (len(FIXED), 'every command/environment' if cap is None else 'up to %d sampled nodes per document' % cap,
-                 NAMES if cap is None else 'two of %s' % NAMES, STRINGS, 'every non-text node'))
+                 '%s of %s' % ('four' if cap is None else 'two', NAMES), STRINGS, 'every non-text node'))
     r.exhaustive = cap is None
     return r
 
@@ -393,7 +393,7 @@ def oracle(ctx, seeds, scale):
     units = c05._units(seed_docs[:60], rng, None, per=1)
     fixed = _fixed() + [d for d in c05.documents(rng, 0, corpus_max=ctx.pick(300, 1500)) if d not in FIXED]
     units += c05._units(fixed, rng, cap, per=2)
-    units += c05._units(ctx.pick(320, 4000) * scale, rng, cap)
+    units += c05._units(ctx.pick(320, 800) * scale, rng, cap)
     c05._collect_oracle(r, _util.pmap(_oracle_unit, units))
     r.failures.sort(key=lambda f: len(f['input']['doc']))
     r.sample({'doc': '\\begin{a}t\\end{a}', 'edit': "node.name = 'q' (node at b0)", 'expected': '\\begin{q}t\\end{q}',
